@@ -373,7 +373,7 @@ theorem okInv_g (env : Env) (f : Nat) (ih : OkInv env f) :
     generalize readN (env.padTarget - ((r.length - r2.length : Nat) : Int)) r2 = p at hr
     obtain ⟨pad, r3⟩ := p
     intro h
-    simp only [R.res_bind, R.res_tick, ok_bind] at h
+    simp only at h
     split at h
     · simp at h
     · simp only [R.res_ok, Except.ok.injEq, Prod.mk.injEq, true_and] at h
